@@ -546,6 +546,21 @@ fn analyze(t: &Map, c: &mut Ctx, hwm: Option<&mut (usize, usize)>, valid_expecte
     if lst.allocated_count != al || lst.free_count != lf.len() || bst.allocated_count != ab || bst.free_count != bf.len() {
         e6.push("arena stats disagree".into());
     }
+    // derived ratios (tolerance: these are floats, only their meaning is checked)
+    for (name, st, util, alloc, free, slots) in [
+        ("leaf", &lst, t.leaf_utilization(), al, lf.len(), ls.len()),
+        ("branch", &bst, t.branch_utilization(), ab, bf.len(), bs.len()),
+    ] {
+        let want_u = if st.total_capacity > 0 { alloc as f64 / st.total_capacity as f64 } else { 0.0 };
+        let want_f = if alloc > 0 { free as f64 / (alloc + free) as f64 } else { 0.0 };
+        if st.total_capacity < slots
+            || (st.utilization - want_u).abs() > 1e-9
+            || (util - want_u).abs() > 1e-9
+            || (st.fragmentation - want_f).abs() > 1e-9
+        {
+            e6.push(format!("{} arena stats ratios disagree with the slot counts", name));
+        }
+    }
     // high-water mark: slot totals never exceed the max number of simultaneously live nodes
     if let Some(hwm) = hwm {
         hwm.0 = hwm.0.max(w.leaves.len());
